@@ -395,7 +395,7 @@ def run_families(pid, plan, rng):
     return S, raw, enc
 
 
-def swarm_check(pid, tier, plan, kinds, design_over=None, extra_oracles=(), vacuity=None, assumptions=(), replay=None, rule='', live=False):
+def swarm_check(pid, tier, plan, kinds, design_over=None, extra_oracles=(), vacuity=None, assumptions=(), replay=None, rule='', live=False, need_actions=()):
     V = Verdict(pid, tier)
     rng = random.Random(seed())
     if replay:
@@ -468,6 +468,10 @@ def swarm_check(pid, tier, plan, kinds, design_over=None, extra_oracles=(), vacu
                 stats['bitfields_written'] += k == 'Bitfield'
                 stats['haves_written'] += k == 'Have'
     vac = None
+    exercised = action_coverage(res['stdout'])[0]
+    for a in need_actions:
+        if a not in exercised and not design_viol:
+            vac = 'action %s of Swarm.tla was never taken in the design run: the property was not exercised on the model' % a
     if vacuity:
         for key, minimum in vacuity.items():
             if stats.get(key, 0) < minimum:
@@ -477,7 +481,7 @@ def swarm_check(pid, tier, plan, kinds, design_over=None, extra_oracles=(), vacu
         'traces_validated_against_impl': acc,
         'samples': [{'family': s.sc.get('family'), 'geometry': s.sc.get('geo'), 'peers': len(s.sc['peers']), 'steps': s.sc['steps'][:6]} for s in S[:: max(1, len(S) // 3)]][:3],
         'scenarios': len(S), 'trace_events_validated': stats['events'], 'design_depth': res.get('depth'),
-        'design_actions_covered': len([a for a, (d, t) in coverage_counts(res['stdout']).items() if t > 0]),
+        'design_actions_exercised': exercised,
         'impl_run_statistics': stats, 'exhaustive': True,
         'rule': rule + ' Design level: TLC explores every interleaving of the bounded MC_Swarm instance (adversarial remotes, frame menu %s). '
                 'Implementation level: seeded scenario families run the real Session/PeerHandler/Connection stack on in-memory streams under a paused clock; '
@@ -499,7 +503,7 @@ def check_c01(tier, replay=None):
     m = mult(tier)
     plan = [(G.adversarial, 40 * m, {'kinds': ['Unchoke', 'Unchoke', 'Choke', 'Piece', 'Piece', 'PieceBad', 'PieceOdd', 'Have', 'Bitfield', 'serve', 'advance', 'close']}),
             (G.honest, 8 * m, {}), (G.upload, 8 * m, {}), (G.midflight, 10 * m, {}), (G.diskfault, 10 * m, {}), ('model', 20 * m, {})]
-    return swarm_check('C01', tier, plan, ['Unchoke', 'Bitfield', 'Piece', 'Bad'],
+    return swarm_check('C01', tier, plan, need_actions=('HPiece', 'MPieceDone'), kinds= ['Unchoke', 'Bitfield', 'Piece', 'Bad'],
                        design_over=dict(Fuel=3, BFMenu='{{1, 2}}', Peers='{a, b}', NBlocks='N1x2') if tier == 'quick' else dict(Fuel=4, MaxQ=2),
                        vacuity={'completions': 10, 'bad_piece_exits': 1}, replay=replay,
                        rule='C01: disk holds only good pieces (TDisk binds the spec store to the scanned directory), owned/served/advertised implies stored, a corrupt assembly ends the task without a write.')
@@ -508,7 +512,7 @@ def check_c01(tier, replay=None):
 def check_c02(tier, replay=None):
     m = mult(tier)
     plan = [(G.honest, 32 * m, {}), (G.handover, 10 * m, {})]
-    return swarm_check('C02', tier, plan, ['Unchoke', 'Bitfield', 'Piece', 'Have'],
+    return swarm_check('C02', tier, plan, need_actions=(), kinds= ['Unchoke', 'Bitfield', 'Piece', 'Have'],
                        design_over=dict(Fuel=3, BFMenu='{{1, 2}}') if tier == 'quick' else dict(Fuel=4, MaxQ=2),
                        extra_oracles=[oracle_c02], vacuity={'completions': 40}, replay=replay, live=True,
                        assumptions=['liveness on the implementation is tested with a virtual-time bound of 25 s after the last scripted action',
@@ -520,7 +524,7 @@ def check_c02(tier, replay=None):
 def check_c08(tier, replay=None):
     m = mult(tier)
     plan = [(G.handshakes, 40 * m, {}), (G.adversarial, 8 * m, {}), ('model', 20 * m, {})]
-    return swarm_check('C08', tier, plan, ['Handshake', 'Bad', 'Bitfield', 'Request'],
+    return swarm_check('C08', tier, plan, need_actions=('HHandshake', 'HReject'), kinds= ['Handshake', 'Bad', 'Bitfield', 'Request'],
                        design_over=dict(HS0='FALSE', Fuel=3, BFMenu='{{1, 2}}') if tier == 'quick' else dict(HS0='FALSE', Fuel=5),
                        vacuity={'exits': 10}, replay=replay,
                        rule='C08: good / wrong-hash / wrong-id / wrong-protocol / late / repeated / missing handshakes on incoming and outgoing connections with a seeded store.')
@@ -529,7 +533,7 @@ def check_c08(tier, replay=None):
 def check_c09(tier, replay=None):
     m = mult(tier)
     plan = [(G.upload, 36 * m, {}), (G.optimistic, 6 * m, {}), ('model', 12 * m, {})]
-    return swarm_check('C09', tier, plan, ['Bitfield', 'Request', 'Interested', 'NotInterested'] if tier == 'quick' else ['Unchoke', 'Bitfield', 'Piece', 'Request', 'Interested'],
+    return swarm_check('C09', tier, plan, need_actions=('HRequest', 'MRequest', 'MRotate', 'HBroadState'), kinds= ['Bitfield', 'Request', 'Interested', 'NotInterested'] if tier == 'quick' else ['Unchoke', 'Bitfield', 'Piece', 'Request', 'Interested'],
                        design_over=dict(Peers='{a}', NPieces=2, NBlocks='N1x2', Own0='{1}', Fuel=5, BFMenu='{{2}}', TickFuel=1, Rates='{0}') if tier == 'quick'
                        else dict(NPieces=2, NBlocks='N1x2', Own0='{1}', Fuel=4, BFMenu='{{2}, {}}', TickFuel=1, Rates='{0}', MaxQ=2),
                        vacuity={'pieces_served': 15}, replay=replay,
@@ -540,7 +544,7 @@ def check_c09(tier, replay=None):
 def check_c10(tier, replay=None):
     m = mult(tier)
     plan = [(G.honest, 20 * m, {}), (G.adversarial, 20 * m, {}), (G.reassign, 25 * m, {}), ('model', 20 * m, {})]
-    return swarm_check('C10', tier, plan, ['Unchoke', 'Choke', 'Bitfield', 'Piece'],
+    return swarm_check('C10', tier, plan, need_actions=('HPiece', 'HReply'), kinds= ['Unchoke', 'Choke', 'Bitfield', 'Piece'],
                        design_over=dict(NBlocks='N3b', Fuel=6, Peers='{a}', BFMenu='{{1, 2}}') if tier == 'quick' else dict(NBlocks='N3b', Fuel=5, BFMenu='{{1, 2}}'),
                        vacuity={'requests_written': 100, 'completions': 20}, replay=replay,
                        rule='C10: requests on the wire are proper blocks of the assigned piece; RequestsTile/RxShape and the logged requested/left queues are checked at every task step.')
@@ -549,7 +553,7 @@ def check_c10(tier, replay=None):
 def check_c11(tier, replay=None):
     m = mult(tier)
     plan = [(G.honest, 20 * m, {'npeers': 3}), (G.upload, 12 * m, {}), (G.midflight, 20 * m, {})]
-    return swarm_check('C11', tier, plan, ['Handshake', 'Unchoke', 'Bitfield', 'Piece'],
+    return swarm_check('C11', tier, plan, need_actions=('HBroadHave', 'MInit', 'HUnchoke'), kinds= ['Handshake', 'Unchoke', 'Bitfield', 'Piece'],
                        design_over=dict(HS0='FALSE', Fuel=4, NBlocks='N1x2', BFMenu='{{1, 2}}') if tier == 'quick' else dict(HS0='FALSE', Fuel=5, NBlocks='N1x2', MaxQ=2),
                        vacuity={'bitfields_written': 20, 'haves_written': 20}, replay=replay,
                        assumptions=['a connection task lags fewer than 32 broadcasts behind (tokio broadcast capacity)'],
@@ -559,7 +563,7 @@ def check_c11(tier, replay=None):
 def check_c12(tier, replay=None):
     m = mult(tier)
     plan = [(G.adversarial, 50 * m, {}), (G.honest, 6 * m, {}), (G.reassign, 30 * m, {}), (G.stale_choke, 10 * m, {}), (G.choke_race, 30 * m, {}), ('model', 30 * m, {})]
-    return swarm_check('C12', tier, plan, ['Unchoke', 'Choke', 'Bitfield', 'Piece'] if tier == 'quick' else ['Unchoke', 'Choke', 'Bitfield', 'Piece', 'Have', 'Bad'],
+    return swarm_check('C12', tier, plan, need_actions=('MUnchoke', 'MChoke', 'MPieceDone', 'MKill'), kinds= ['Unchoke', 'Choke', 'Bitfield', 'Piece'] if tier == 'quick' else ['Unchoke', 'Choke', 'Bitfield', 'Piece', 'Have', 'Bad'],
                        design_over=dict(Fuel=3, BFMenu='{{1, 2}}') if tier == 'quick' else dict(Fuel=4, MaxQ=2),
                        vacuity={'mgr_events': 500, 'completions': 5}, replay=replay,
                        rule='C12: repeated/out-of-order choke, unchoke, have, bitfield, blocks, disconnects over several peers; the whole manager state after every command must be '
@@ -569,7 +573,7 @@ def check_c12(tier, replay=None):
 def check_c13(tier, replay=None):
     m = mult(tier)
     plan = [(G.adversarial, 25 * m, {}), (G.honest, 12 * m, {'gname': 'g12'}), (G.honest, 8 * m, {}), (G.reassign, 15 * m, {}), (G.endgame10, 14 * m, {}), ('model', 12 * m, {})]
-    return swarm_check('C13', tier, plan, ['Unchoke', 'Bitfield', 'Have'],
+    return swarm_check('C13', tier, plan, need_actions=('MUnchoke', 'MBitfield', 'MHave'), kinds= ['Unchoke', 'Bitfield', 'Have'],
                        design_over=dict(Fuel=2, NPieces=3, NBlocks='N1x3', BFMenu='{{1, 2}, {3}}') if tier == 'quick' else dict(Fuel=3, NPieces=3, NBlocks='N1x3', BFMenu='{{1, 2}, {3}, {1, 2, 3}}'),
                        vacuity={'mgr_events': 500}, replay=replay,
                        rule='C13: every logged piece choice must be in PickSet (rarest among what the peer advertises and the client lacks, reserved pieces only in end game, none iff no candidate); '
@@ -579,7 +583,7 @@ def check_c13(tier, replay=None):
 def check_c14(tier, replay=None):
     m = mult(tier)
     plan = [(G.choking, 20 * m, {}), (G.rotation_race, 20 * m, {}), (G.optimistic, 5 * m, {})]
-    return swarm_check('C14', tier, plan, ['Bitfield', 'Interested'] if tier == 'quick' else ['Bitfield', 'Interested', 'NotInterested'],
+    return swarm_check('C14', tier, plan, need_actions=('MRotate', 'MBitfield', 'HBroadState'), kinds= ['Bitfield', 'Interested'] if tier == 'quick' else ['Bitfield', 'Interested', 'NotInterested'],
                        design_over=dict(Peers='{a, b}', NPieces=1, NBlocks='N1', TickFuel=1, Fuel=2, MaxUnchoked=1, BFMenu='{{1}}', OptRounds=1) if tier == 'quick'
                        else dict(Peers='{a, b, c}', NPieces=1, NBlocks='N1', TickFuel=1, Fuel=2, MaxUnchoked=1, BFMenu='{{1}}'),
                        extra_oracles=[oracle_c14], vacuity={'rotations_executed': 10}, replay=replay,
@@ -590,7 +594,7 @@ def check_c14(tier, replay=None):
 def check_c20(tier, replay=None):
     m = mult(tier)
     plan = [(G.keepalive, 25 * m, {})]
-    return swarm_check('C20', tier, plan, ['KeepAlive', 'Have', 'Bad'],
+    return swarm_check('C20', tier, plan, need_actions=('HTickKA', 'HKeepAlive'), kinds= ['KeepAlive', 'Have', 'Bad'],
                        design_over=dict(Peers='{a}', NPieces=1, NBlocks='N1', TickFuel=6, Fuel=3, Rates='{0}', BFMenu='{{1}}') if tier == 'quick'
                        else dict(Peers='{a, b}', NPieces=1, NBlocks='N1', TickFuel=5, Fuel=3, Rates='{0}', BFMenu='{{1}}'),
                        extra_oracles=[oracle_c20], vacuity={'keepalive_timeouts': 5}, replay=replay,
